@@ -30,7 +30,7 @@ PROBES = ['restart_at_later_slot', 'restart_near_Tend', 'same_step_restarted_twi
 
 def plan(tier):
     if tier == 'thorough':
-        return {'n': 400000, 'chunk': 400, 'timeout': 300, 'selftest': 60, 'budget_s': 7200, 'minimize_s': 300}
+        return {'n': 400000, 'chunk': 400, 'timeout': 300, 'selftest': 60, 'budget_s': 3000, 'minimize_s': 300}
     return {'n': 6000, 'chunk': 100, 'timeout': 300, 'selftest': 12, 'budget_s': 900, 'minimize_s': 120}
 
 
